@@ -17,6 +17,7 @@ type FuncResult struct {
 	Err         string // tool limitation (unsupported construct / spec error)
 	Obligations []*Obligation
 	Frame       *Frame // top frame after symbolic execution (counterexample replay reads parameters / returns from it)
+	BV          bool   // verified in bit-vector mode (bvmode.go)
 }
 
 // invEnv builds the spec environment for loop invariants / asserts inside function bodies:
@@ -143,6 +144,9 @@ func (f *Frame) resolveSourceNameAt(name string, h *ssa.BasicBlock, before int, 
 
 // verifyFunction generates all obligations for one function under contract.
 func verifyFunction(prog *Program, db *SpecDB, con *Contract) (res *FuncResult) {
+	if con.BitVector {
+		return verifyBV(prog, db, con)
+	}
 	res = &FuncResult{Name: con.Name, Contract: con}
 	fn := prog.Funcs[con.Name]
 	if fn == nil {
